@@ -2,7 +2,7 @@
 # tools/confirm_seed.sh <dir with patch.diff and demo.py>: confirm in a scratch worktree that the
 # demonstration passes on the unchanged tree and fails with the change applied.
 d=$(readlink -f "$1")
-wt=$(mktemp -d /tmp/wt_w2_confirm.XXXXXX); rmdir "$wt"
+wt=$(mktemp -d /tmp/wt_w2_w3_confirm.XXXXXX); rmdir "$wt"
 git -C /repo worktree add -q --detach "$wt" HEAD || exit 3
 mkdir -p "$wt/mutants/x" && cp "$d/demo.py" "$wt/mutants/x/demo.py"
 (cd "$wt" && MPLBACKEND=Agg timeout 900 /venv/bin/python mutants/x/demo.py >/tmp/confirm_clean.log 2>&1); rc_clean=$?
